@@ -72,6 +72,12 @@ class FD(FrameDomain):
     def method(self, recv, name, args, kwargs, node):
         if isinstance(recv, Rot) and name == "apply" and args and isinstance(args[0], (Vec, Pt)):
             self.log("apply", node)
+        if name in ("rotate", "_rotate") and args and isinstance(args[0], Rot):
+            # declared: rotate(rotation : Rot[G->G]) - the operation acts on global poses
+            self.log("rotate-arg", node)
+            if (args[0].frm, args[0].to) != ("G", "G"):
+                self.report("rotate-arg", node, f"rotation handed to .{name}() has type {args[0]}; a pose update needs a global rotation Rot[G->G] "
+                            "(e.g. new * old^-1, not old^-1 * new)")
         if isinstance(recv, Rot) and name == "as_matrix":
             return Mat(recv.frm, recv.to)
         if isinstance(recv, Mat) and name in ("transpose",):
@@ -261,12 +267,22 @@ def c04(repo, res):
             if ok:
                 sl = st.target.slice
                 last = sl.elts[-1] if isinstance(sl, ast.Tuple) else sl
-                ok = isinstance(last, ast.Constant) and last.value == 0 and isinstance(sl, ast.Tuple) and \
-                    any(isinstance(e, ast.Constant) and e.value is Ellipsis for e in sl.elts[:1])
+                ok = isinstance(last, ast.Constant) and last.value == 0 and isinstance(sl, ast.Tuple)
         res.ob(f"F4:handedness:{norm(h.test)}", ok, {"rule": "F4", "branch": norm(h.test), "body": [norm(s) for s in h.body]})
         if not ok:
             res.add(Finding("F4:handedness", rel, "getBH_level2", h.body[0] if h.body else h,
                             "a left-handed sensor must differ only by the sign of component 0 of the last axis (x)", h.lineno))
+    # ---- F6: the flip precedes the pixel aggregation (min/max/std/ptp do not commute with a sign change)
+    aggnames = {t.id for a in ast.walk(node) if isinstance(a, ast.Assign) and isinstance(a.value, ast.Call) and
+                getattr(a.value.func, "id", "") == "check_format_pixel_agg" for t in a.targets if isinstance(t, ast.Name)}
+    aggs = [c for c in ast.walk(node) if isinstance(c, ast.Call) and isinstance(c.func, ast.Name) and c.func.id in aggnames]
+    if aggs:
+        first_agg = min(c.lineno for c in aggs)
+        late = [h for h in hand if h.lineno > first_agg]
+        res.ob("F6:handedness flip precedes pixel aggregation", not late, {"rule": "F6", "flip_lines": [h.lineno for h in hand], "first_aggregation_line": first_agg})
+        for h in late:
+            res.add(Finding("F6:order", rel, "getBH_level2", h.test, "the left-handed x flip is applied after pixel_agg: reducers such as min/max/std/ptp "
+                            "do not commute with the sign change", h.lineno))
     # ---- F5 path predicates
     n5 = path_quantifier_rule(res, node, rel, "getBH_level2")
     arepo = ARepo(common.REPO)
